@@ -76,7 +76,15 @@ func (w *World) buildSSA() (*ssaWorld, error) {
 
 // rootOf follows address computations back to their root value.
 func rootOf(v ssa.Value) (root ssa.Value, throughLoad bool) {
+	return rootOfSeen(v, map[ssa.Value]bool{})
+}
+
+func rootOfSeen(v ssa.Value, seen map[ssa.Value]bool) (root ssa.Value, throughLoad bool) {
 	for i := 0; i < 64; i++ {
+		if seen[v] {
+			return v, throughLoad
+		}
+		seen[v] = true
 		switch x := v.(type) {
 		case *ssa.FieldAddr:
 			v = x.X
@@ -95,6 +103,42 @@ func rootOf(v ssa.Value) (root ssa.Value, throughLoad bool) {
 			v = x.X
 		case *ssa.Convert:
 			v = x.X
+		case *ssa.Call:
+			// append(s, ...) may return s's backing array
+			if b, ok := x.Call.Value.(*ssa.Builtin); ok && b.Name() == "append" && len(x.Call.Args) > 0 {
+				v = x.Call.Args[0]
+				continue
+			}
+			return v, throughLoad
+		case *ssa.Alloc:
+			// a local whose address is taken: follow the values stored into it
+			if !throughLoad || i > 40 {
+				return v, throughLoad // a store INTO the local itself is not a store to what it points to
+			}
+			var stored []ssa.Value
+			for _, r := range *x.Referrers() {
+				if st, ok := r.(*ssa.Store); ok && st.Addr == ssa.Value(x) {
+					stored = append(stored, st.Val)
+				}
+			}
+			for _, sv := range stored {
+				r, tl := rootOfSeen(sv, seen)
+				if _, isG := r.(*ssa.Global); isG {
+					return r, throughLoad || tl
+				}
+			}
+			return v, throughLoad
+		case *ssa.Phi:
+			for _, e := range x.Edges {
+				if e == ssa.Value(x) {
+					continue
+				}
+				r, tl := rootOfSeen(e, seen)
+				if _, isG := r.(*ssa.Global); isG {
+					return r, throughLoad || tl
+				}
+			}
+			return v, throughLoad
 		default:
 			return v, throughLoad
 		}
@@ -679,6 +723,42 @@ func (w *World) rulesBuf(p *Pkg, add func(ok bool, rule, inst string, pos token.
 		return true
 	})
 	fresh := em.MakeCall != nil
+	// every other return of Vector must also hand out a buffer made in this call
+	otherRet := ""
+	ast.Inspect(em.Fn.Body, func(n ast.Node) bool {
+		r, isRet := n.(*ast.ReturnStmt)
+		if !isRet || r == rs {
+			return true
+		}
+		bad := "an additional return path of Vector does not convert a buffer made in the call"
+		ast.Inspect(r, func(x ast.Node) bool {
+			u, ok := x.(*ast.UnaryExpr)
+			if !ok || u.Op != token.AND {
+				return true
+			}
+			o := identObj(info, u.X)
+			ast.Inspect(em.Fn.Body, func(y ast.Node) bool {
+				as, ok := y.(*ast.AssignStmt)
+				if !ok || as.Tok != token.DEFINE || len(as.Lhs) != 1 || info.Defs[as.Lhs[0].(*ast.Ident)] != o {
+					return true
+				}
+				if c, ok := as.Rhs[0].(*ast.CallExpr); ok {
+					if id, ok := c.Fun.(*ast.Ident); ok && id.Name == "make" {
+						bad = ""
+					}
+				}
+				return true
+			})
+			return true
+		})
+		if bad != "" {
+			otherRet = bad + " (a shared or pooled backing array: the returned string can change later)"
+		}
+		return true
+	})
+	if otherRet != "" {
+		badUse = otherRet
+	}
 	ok = okRet && badUse == "" && fresh
 	det := fmt.Sprintf("buffer made in the call, %d uses: appended to only through the verified emit helpers, %s", uses, how)
 	if !ok {
